@@ -53,6 +53,37 @@ def main():
             compile_(objects_of(corpus.build(r)))
         for f in unrelated_objects(2):
             compile_([f])
+    if history == "hostile":
+        # compilations that share as much as possible with the target, but differ in what must NOT leak into it: the same recipe
+        # with very loose table tolerances and with another scalar type, macro ("iso") and GLL-variant elements on the same cell with
+        # the same quadrature degrees, explicit schemes (the related elements first: whatever is memoised per (cell, degree, scheme)
+        # is then filled by THEM, not by the target's own recipe)
+        import basix.ufl
+        import ufl
+
+        cellname = case["recipe"].get("cell", "triangle")
+        gd = {"interval": 1, "triangle": 2, "quadrilateral": 2}.get(cellname, 3)
+        try:
+            mesh = ufl.Mesh(basix.ufl.element("Lagrange", cellname, 1, shape=(gd,)))
+            for fam, deg in (("iso", 1), ("iso", 2), ("Lagrange", 3)):
+                try:
+                    kw = {"lagrange_variant": basix.LagrangeVariant.gll_warped} if fam == "Lagrange" else {}
+                    V = ufl.FunctionSpace(mesh, basix.ufl.element(fam, cellname, deg, **kw))
+                    u, v = ufl.TrialFunction(V), ufl.TestFunction(V)
+                    f = ufl.Coefficient(V)
+                    forms = [f * u * v * ufl.dx(metadata={"quadrature_degree": q}) + u * v * ufl.ds(metadata={"quadrature_degree": q}) for q in (1, 2, 3, 4)]
+                    forms.append(u * v * ufl.dx + ufl.inner(ufl.grad(u), ufl.grad(v)) * ufl.dx)
+                    ffcx.compiler.compile_ufl_objects(forms, options=ffcx.options.get_options({"table_atol": 1e-3}), namespace="ns")
+                except Exception:
+                    pass
+        except Exception:
+            pass
+        for o in ({"table_atol": 0.05, "table_rtol": 0.05}, {"scalar_type": "float32"}):
+            try:
+                bb = corpus.build(case["recipe"])
+                ffcx.compiler.compile_ufl_objects(objects_of(bb), options=ffcx.options.get_options(dict(options, **o)), namespace="ns")
+            except Exception:
+                pass
     if history == "built_early":
         b = corpus.build(case["recipe"])
         keep += unrelated_objects(4)
